@@ -42,7 +42,9 @@ c227e954).  `tools/seeded_all.sh` re-runs all of them (scratch worktree + `VERIF
 writes `/verif/seeded/RESULTS.md`; the last run, after all extensions, gives **exit 1 with a VIOLATION line for
 %d of %d through the quick check of the change's own property**; the other %d need another property's
 quantifier by construction and are caught by that property's quick check (`tools/cross_check.sh`, rows marked
-`(cross)` in RESULTS.md): %s.  No kept change is left undetected.
+`(cross)` in RESULTS.md): %s.  No kept change is left undetected.  (Seven stored patches - C15-a1, b1, c1, c2, e1,
+g2 and C19-a1 - no longer applied after later `fix:` commits touched the same lines; they were rebased by 3-way
+merge, three of them by hand, and confirmed again with `tools/seedcheck.sh`.)
 
 **Own mutants** (`/verif/mutants/*.diff`, run with `tools/mutant.sh <diff> <Cxx> [--suite]`): chunk overlap in
 the dispersity loop, `>=` instead of `>` at the cutoff, normalisation by the form volume, silent truncation to
